@@ -2,11 +2,11 @@
 (* design step for C22: every timestamp assignment of a chain of N+1 blocks, every starting point, every *)
 (* interleaving of honest and (at most MaxFaults) faulty responses with the syncer goroutine.            *)
 EXTENDS Backfill
-CONSTANTS NC, WinC, MaxFaults
-Init == InitWith(NC, WinC)
-MCNext == ClientCheck \/ HonestRound \/ (faults < MaxFaults /\ FaultyRound) \/ Save \/ SignalDone
+CONSTANTS NC, NF, WinC, MaxFaults
+Init == InitWith(NC, NF, WinC)
+MCNext == ClientCheck \/ RoundStart \/ HonestRound \/ (faults < MaxFaults /\ FaultyRound) \/ Save \/ SignalDone \/ Forward
 MCSpec == Init /\ [][MCNext]_vars
-               /\ WF_vars(ClientCheck) /\ WF_vars(HonestRound) /\ WF_vars(Save) /\ WF_vars(SignalDone)
+               /\ WF_vars(ClientCheck) /\ WF_vars(RoundStart) /\ WF_vars(HonestRound) /\ WF_vars(Save) /\ WF_vars(SignalDone)
 (* backfill completes once the peers serve the real ancestry (faulty rounds are finite) *)
 Completes == <>sdone
 (* and it has completed as soon as nothing is left to fetch and the channel is drained *)
